@@ -27,7 +27,8 @@ def write_if_changed(path, text):
 OUTPUTS = {'gen_tables': ['Tables.v'], 'gen_periodic': ['Periodic.v'], 'gen_transformers': ['Transformers.v'],
            'gen_network': ['NetworkGen.v'], 'gen_drawing': ['DrawingGen.v'], 'gen_circuit': ['CircuitGen.v'],
            'gen_saveload': ['SaveLoadGen.v'], 'gen_annotation': ['AnnotationGen.v'], 'gen_format': ['FormatGen.v'],
-           'gen_matrix': ['MatrixGen.v'], 'gen_loaders': ['LoadersGen.v', 'PortGen.v']}
+           'gen_matrix': ['MatrixGen.v'], 'gen_loaders': ['LoadersGen.v', 'PortGen.v'],
+           'gen_elements': ['ElementsGen.v'], 'gen_netbranch': ['NetBranchGen.v'], 'gen_wrappers': ['WrappersGen.v']}
 
 
 def poison(module, reason):
